@@ -20,9 +20,9 @@ type Run struct {
 	E    *core.Effects
 	Tier string
 	// per-run memo tables (a Run is used by one goroutine)
-	lfMemo map[string]*LockFacts
-	cfMemo map[string]*CoreFlow
-	mpMemo map[string]*MethodPaths
+	lfMemo     map[string]*LockFacts
+	cfMemo     map[string]*CoreFlow
+	mpMemo     map[string]*MethodPaths
 	inlineMemo map[*ssa.Function]bool
 }
 
